@@ -80,11 +80,23 @@ class NoneDetFn(W.MapFn):
         return {'f': self.stage, 'x': x}
 
 
+class YieldingList(list):
+    """a list with a Python-level pickling hook (as objects with __reduce__ /
+    __getstate__ have): while an example is being serialised the scheduler may
+    switch to another thread"""
+
+    def __reduce_ex__(self, protocol):
+        sim = S.SIM
+        if sim is not None and sim.me() is not None and not sim.aborting:
+            sim.yield_point('pickle')
+        return (YieldingList, (list(self),))
+
+
 class TupleFn:
     """x -> (x, [marker]): a shallowly immutable example with mutable content"""
 
     def __call__(self, x):
-        return (x, ['m'])
+        return (x, YieldingList(['m']))
 
 
 class FreshLogFn(W.FreshFn):
